@@ -565,20 +565,26 @@ def coq_codes(ctx, atoms_by_topo, items, shard=300, fn="codes"):
     """items: [(case_index, topo_index, string, outcome)] -> ({case_index: code}, errors).  One coqc per shard,
     4 at a time; only (index, code) pairs with code != 0 are printed by Coq and parsed here."""
     from concurrent.futures import ThreadPoolExecutor
-    prelude = ["Require Import MD.Select.Syntax MD.Select.Model MD.Select.Run MD.Gen.SelectTables.",
-               "Open Scope string_scope.",
-               "Definition topos : list (list atom) := ["]
-    prelude.append(";\n".join(clist([coq_atom(a) for a in atoms], str) for atoms in atoms_by_topo))
-    prelude.append("].")
-    prelude = "\n".join(prelude)
+    head = "\n".join(["Require Import MD.Select.Syntax MD.Select.Model MD.Select.Run MD.Gen.SelectTables.",
+                      "Open Scope string_scope."])
+    coq_topos = {}
+
+    def topo_text(ti):
+        if ti not in coq_topos:
+            coq_topos[ti] = clist([coq_atom(a) for a in atoms_by_topo[ti]], str)
+        return coq_topos[ti]
+
     shards = [items[i:i + shard] for i in range(0, len(items), shard)]
 
     def run(si_sh):
         si, sh = si_sh
-        body = ["From Coq Require Import ZArith List String Bool Ascii.", "Import ListNotations.", prelude,
+        used = sorted({ti for _ci, ti, _s, _o in sh})          # only the topologies this shard refers to
+        local = {ti: k for k, ti in enumerate(used)}
+        body = ["From Coq Require Import ZArith List String Bool Ascii.", "Import ListNotations.", head,
+                "Definition topos : list (list atom) := [", ";\n".join(topo_text(ti) for ti in used), "].",
                 "Definition cases : list (nat * (nat * string * outcome)) := ["]
         # shard-local indices: large nat literals overflow coqc's stack
-        body.append(";\n".join("(%d%%nat, (%d%%nat, %s, %s))" % (j, ti, cstr(s), coq_outcome(o))
+        body.append(";\n".join("(%d%%nat, (%d%%nat, %s, %s))" % (j, local[ti], cstr(s), coq_outcome(o))
                                for j, (ci, ti, s, o) in enumerate(sh)))
         body.append("].")
         body.append('Definition tag := "CODES"%string.')
